@@ -7,6 +7,8 @@
 //!  6  every literal kind over a boundary value list
 //!  8  trees the parser produces for the repository's .rssl inputs and for generated statements/declarations
 //!     (double round trip: parse → print → parse)
+//!  9  parser trees of every expression form (every binary operator / the conditional operator outermost, every operator
+//!     pair one level deeper, unary-like wrappers) in every template argument position of calls and of types
 //!  7  trees the HLSL exporter really builds (hook H1) for the repository inputs: print → parse → compare
 
 use crate::ast_norm::{self, Norm};
@@ -986,6 +988,12 @@ fn declarator_sources() -> Vec<String> {
 }
 
 fn double_roundtrip(name: &str, src: &str, acc: &mut Acc) {
+    double_roundtrip_sig(name, src, None, acc)
+}
+
+/// `sig`: signature class to report a failure under (generated spaces that know which dimension a source exercises);
+/// None = class derived from the source text
+fn double_roundtrip_sig(name: &str, src: &str, sig: Option<&str>, acc: &mut Acc) {
     acc.evals += 1;
     let r = guard(|| {
         let t1 = match crate::util::parse_src(src) {
@@ -1046,9 +1054,15 @@ fn double_roundtrip(name: &str, src: &str, acc: &mut Acc) {
         }
         Ok(Err((target, text, why))) => {
             acc.violation(Violation {
-                signature: format!("reparse|{}|{}", target, classify_source(src, &text)),
-                detail: format!("{}: parser tree printed for {} {}", name, target, why),
-                replay: format!("kind: source\n{}", src),
+                signature: match sig {
+                    Some(s) => s.to_string(),
+                    None => format!("reparse|{}|{}", target, classify_source(src, &text)),
+                },
+                detail: format!("{}: parser tree of `{}` printed for {} as `{}` {}", name, one_line(src, 120), target, one_line(&text, 160), why),
+                replay: match sig {
+                    Some(s) => format!("kind: template-arg\n{}\n{}", s, src),
+                    None => format!("kind: source\n{}", src),
+                },
             });
         }
     }
@@ -1159,6 +1173,162 @@ fn exporter_diff_class(ctx: &str) -> String {
     "other".to_string()
 }
 
+
+// ---------------------------------------------------------------------------------------------
+// space 9: expression-valued template arguments
+
+/// operators with holes (`%`): every binary operator and the conditional operator
+fn template_arg_operators() -> Vec<(&'static str, String)> {
+    let table: &[(&str, &str)] = &[
+        ("Add", "+"), ("Subtract", "-"), ("Multiply", "*"), ("Divide", "/"), ("Modulus", "%"), ("LeftShift", "<<"), ("RightShift", ">>"),
+        ("BitwiseAnd", "&"), ("BitwiseOr", "|"), ("BitwiseXor", "^"), ("BooleanAnd", "&&"), ("BooleanOr", "||"),
+        ("LessThan", "<"), ("LessEqual", "<="), ("GreaterThan", ">"), ("GreaterEqual", ">="), ("Equality", "=="), ("Inequality", "!="),
+        ("Assignment", "="), ("SumAssignment", "+="), ("DifferenceAssignment", "-="), ("ProductAssignment", "*="), ("QuotientAssignment", "/="),
+        ("RemainderAssignment", "%="), ("LeftShiftAssignment", "<<="), ("RightShiftAssignment", ">>="), ("BitwiseAndAssignment", "&="),
+        ("BitwiseOrAssignment", "|="), ("BitwiseXorAssignment", "^="), ("Sequence", ","),
+    ];
+    assert_eq!(table.len(), BINARY.len());
+    let mut v: Vec<(&'static str, String)> = table.iter().map(|(n, t)| (*n, format!("\u{1} {} \u{1}", t))).collect();
+    v.push(("Ternary", "\u{1} ? \u{1} : \u{1}".to_string()));
+    v
+}
+
+/// fill the holes of an operator pattern, in order
+fn fill(pattern: &str, parts: &[String]) -> String {
+    let mut out = String::new();
+    let mut i = 0;
+    for ch in pattern.chars() {
+        if ch == '\u{1}' {
+            out.push_str(&parts[i]);
+            i += 1;
+        } else {
+            out.push(ch);
+        }
+    }
+    out
+}
+
+/// (class of the outermost node, expression text): every expression form by outermost node over leaves, then every
+/// operator pair (outer operator, operand position, inner operator) with and without parentheses around the inner
+/// operation, then every unary-like wrapper over every operator; each written with and without parentheses around the
+/// whole argument when the bare spelling contains no < or > (bare spellings the parser rejects are counted, not judged)
+fn template_arg_expressions() -> Vec<(String, String)> {
+    let ops = template_arg_operators();
+    let names = ["a", "b", "c", "d", "e"];
+    let mut inner: Vec<(String, String)> = Vec::new();
+    // depth 1: operators over leaves
+    for (n, pat) in &ops {
+        let holes = pat.matches('\u{1}').count();
+        let parts: Vec<String> = names[..holes].iter().map(|s| s.to_string()).collect();
+        inner.push((n.to_string(), fill(pat, &parts)));
+    }
+    // depth 1: every other node kind
+    for (n, t) in [
+        ("Leaf", "a"), ("Leaf", "T"), ("Literal", "1"), ("Literal", "1u"), ("Literal", "1.5"), ("Literal", "true"), ("Literal", "-1"),
+        ("Unary", "-a"), ("Unary", "+a"), ("Unary", "!a"), ("Unary", "~a"), ("Unary", "++a"), ("Unary", "--a"), ("Unary", "a++"), ("Unary", "a--"), ("Unary", "*a"), ("Unary", "&a"),
+        ("Cast", "(T)a"), ("Cast", "(float)a"), ("Call", "k()"), ("Call", "k(a)"), ("Call", "k(a, b)"), ("Call", "k((a, b))"), ("CallT", "g<T>(a)"), ("CallT", "g<(a > b)>(c)"), ("CallT", "g<(a >> b)>(c)"),
+        ("CallT", "g<a + b>(c)"), ("Subscript", "a[b]"), ("Subscript", "a[b > c]"), ("Subscript", "a[b >> c]"), ("Member", "a.b"), ("Sizeof", "sizeof(a)"), ("Sizeof", "sizeof(T)"), ("Sizeof", "sizeof(T<(a >> b)>)"),
+    ] {
+        inner.push((n.to_string(), t.to_string()));
+    }
+    // depth 2: outer operator x operand position x inner operator, inner operation parenthesised or bare
+    for (on, opat) in &ops {
+        let holes = opat.matches('\u{1}').count();
+        for pos in 0..holes {
+            for (_, ipat) in &ops {
+                let ih = ipat.matches('\u{1}').count();
+                for paren in [true, false] {
+                    let mut k = 0;
+                    let mut parts = Vec::new();
+                    for h in 0..holes {
+                        if h == pos {
+                            let ip: Vec<String> = names[k..k + ih].iter().map(|s| s.to_string()).collect();
+                            k += ih;
+                            let t = fill(ipat, &ip);
+                            parts.push(if paren { format!("({})", t) } else { t });
+                        } else {
+                            parts.push(names[k].to_string());
+                            k += 1;
+                        }
+                    }
+                    // without the inner parentheses precedence decides which operator ends up outermost
+                    inner.push((if paren { on.to_string() } else { "UnparenthesisedPair".to_string() }, fill(opat, &parts)));
+                }
+            }
+        }
+    }
+    // depth 2: unary-like wrappers over every operator
+    for (wn, w) in [("Unary", "-(\u{1})"), ("Unary", "!(\u{1})"), ("Unary", "(\u{1})++"), ("Cast", "(T)(\u{1})"), ("Call", "k(\u{1})"), ("Call", "k(d, (\u{1}))"), ("Subscript", "d[\u{1}]"), ("Subscript", "(\u{1})[d]"), ("Member", "(\u{1}).m"), ("Sizeof", "sizeof(\u{1})")] {
+        for (_, ipat) in &ops {
+            let ih = ipat.matches('\u{1}').count();
+            let ip: Vec<String> = names[..ih].iter().map(|s| s.to_string()).collect();
+            inner.push((wn.to_string(), fill(w, &[fill(ipat, &ip)])));
+        }
+    }
+    let mut out = Vec::new();
+    for (n, t) in inner {
+        // `(T)` would be the type name of the fixed type environment used as a value: only the bare spelling is a tree
+        if t != "T" {
+            out.push((n.clone(), format!("({})", t)));
+        }
+        // bare spellings containing < or > are not spellings of a template argument (the parser reads them as comparisons
+        // of the surrounding names or rejects them); their parenthesised twins above build the intended trees
+        if !t.contains('<') && !t.contains('>') {
+            out.push((n, t));
+        }
+    }
+    out
+}
+
+/// every syntactic position of a template argument list: on calls and on types, first / later / only argument, and
+/// types in every place a type can be written (local, parameter, global, member, return type, cast, sizeof, nested)
+fn template_arg_contexts() -> Vec<(&'static str, &'static str)> {
+    vec![
+        ("call", "void f() { h<\u{1}>(x); }"),
+        ("call", "void f() { h<T, \u{1}>(x); }"),
+        ("call", "void f() { h<\u{1}, T>(x); }"),
+        ("call", "void f() { h<\u{1}, \u{1}>(x); }"),
+        ("call", "void f() { x = h<\u{1}>(y) + 1; }"),
+        ("call", "void f() { p.h<\u{1}>(x); }"),
+        ("call", "void f() { h<T<\u{1}> >(x); }"),
+        ("type", "void f() { T<\u{1}> t; }"),
+        ("type", "void f() { T<float, \u{1}> t; }"),
+        ("type", "void f() { T<\u{1}, float> t; }"),
+        ("type", "void f() { T<\u{1}, \u{1}> t; }"),
+        ("type", "void f() { T<U<\u{1}> > t; }"),
+        ("type", "void f(vector<float, \u{1}> v) {}"),
+        ("type", "static T<\u{1}> g;"),
+        ("type", "struct S { T<\u{1}> m; };"),
+        ("type", "T<\u{1}> f() { return x; }"),
+        ("type", "void f() { x = (T<\u{1}>)y; }"),
+        ("type", "void f() { x = sizeof(T<\u{1}>); }"),
+    ]
+}
+
+fn template_arg_case(idx: u64) -> Option<(String, String)> {
+    thread_local! {
+        static EXPRS: Vec<(String, String)> = template_arg_expressions();
+    }
+    let ctxs = template_arg_contexts();
+    EXPRS.with(|ex| {
+        let ne = ex.len() as u64;
+        // simplest first: expressions are ordered by depth, contexts vary fastest
+        let (e, c) = ((idx / ctxs.len() as u64), (idx % ctxs.len() as u64) as usize);
+        if e >= ne {
+            return None;
+        }
+        let (class, text) = &ex[e as usize];
+        let (cclass, pat) = ctxs[c];
+        let holes = pat.matches('\u{1}').count();
+        let parts: Vec<String> = (0..holes).map(|_| text.clone()).collect();
+        Some((format!("template-arg|{}|{}", cclass, class), format!("{}\n", fill(pat, &parts))))
+    })
+}
+
+fn template_arg_total() -> u64 {
+    (template_arg_expressions().len() * template_arg_contexts().len()) as u64
+}
+
 // ---------------------------------------------------------------------------------------------
 
 pub fn run(ctx: &Ctx) -> i32 {
@@ -1193,6 +1363,18 @@ pub fn run(ctx: &Ctx) -> i32 {
         }
     });
     rep.absorb("parser_trees", r);
+
+    // ---- space 9: expression-valued template arguments (every outermost operator x every template argument position)
+    let tot9 = template_arg_total();
+    let r = run_par(ctx, tot9, 256, |idx, acc| {
+        if let Some((sig, src)) = template_arg_case(idx) {
+            double_roundtrip_sig(src.trim_end(), &src, Some(&sig), acc);
+            if idx % 20_011 == 7 {
+                acc.sample(obj(vec![("space", "template-arg".into()), ("source", one_line(&src, 100).into())]));
+            }
+        }
+    });
+    rep.absorb("template_argument_expressions", r);
 
     // ---- space 7: exporter trees
     let r = run_par(ctx, sources.len() as u64, 4, |idx, acc| {
@@ -1390,6 +1572,10 @@ pub fn replay(ctx: &Ctx, body: &str) -> i32 {
             }
         }
         "kind: source" => double_roundtrip("replay", rest, &mut acc),
+        "kind: template-arg" => {
+            let (sig, src) = rest.split_once('\n').unwrap_or((rest, ""));
+            double_roundtrip_sig("replay", src, Some(sig.trim()), &mut acc)
+        }
         "kind: exporter" => exporter_tree_check("replay", rest, &mut acc),
         k => {
             eprintln!("machinery error: unknown replay kind {:?}", k);
